@@ -17,6 +17,7 @@ EXHAUSTIVE = "the order-relation space (bin type x threshold order x value relat
 RULE += " " + 'Part fss: complementary events give the same fractions skill score, and the temporal score equals the window reference with the documented event.'
 RULE += " " + 'Rounds 9-10: populations of the conditional axes (-m obs|fcst -x obs|fcst -agg count), same-field and cross-field.'
 RULE += " " + 'Rounds 11-12: -m within with 0 as lowest threshold on data with exact hits; part window (scripts/window.py under the one-sided bin types with running totals equal to the threshold).'
+RULE += " " + 'Rounds 13-14: every ensemble event probability is requested one to three times from the same Data object, in random order.'
 ASSUMPTIONS = ["closedness at an infinite end of an interval is immaterial"]
 REQUIRED_COUNTERS = ["within_checked", "apply_threshold_checked", "get_intervals_checked", "abcd_checked",
                      "cli_rows_checked", "contract:Interval.within", "partition_checked", "prob_checked"]
